@@ -186,8 +186,8 @@ def t_result_is_the_specified_page(ev, outcome, exc, path, I):
     else:
         return "the result is not derived from the permitted list"
     # the page: lo = offset or 0, hi = lo + maximum (open when no maximum is given)
-    off = I.eval_spec("payload.offset_items", {'payload': payload}, {}, None, None)
-    mx = I.eval_spec("payload.maximum_items", {'payload': payload}, {}, None, None)
+    off = I.resolve_opt(I.eval_spec("payload.offset_items", {'payload': payload}, {}, None, None))
+    mx = I.resolve_opt(I.eval_spec("payload.maximum_items", {'payload': payload}, {}, None, None))
     lo_spec = z3.IntVal(0) if off is None else off.t
     hi_spec = None if mx is None else lo_spec + mx.t
     lo_c = z3.IntVal(0) if lo_code is None else lo_code
